@@ -1,5 +1,5 @@
 (* C19: json! macro.  Case line: `m <document>` (see harness/src/c19.rs).
-   model column: M = expand (tokens d) under the executable float reference lexical_f64,
+   model column: M = expand (tokens d) under the executable float reference lexical_float,
                  P = the parser model on text d, EQ = their equality, T = text d;
    spec column:  M = P = value_of d, EQ = 1, T = text d. *)
 open Model
@@ -58,7 +58,17 @@ let rec dec_doc (t : str list) : doc * str list =
       | Npos p -> if neg then Zneg p else Zpos p in
     (DInt (ty, z), r)
   | x :: r when Stdlib.String.length x > 2 && x.[0] = 'd' && (x.[1] = '+' || x.[1] = '-') ->
-    (DFloat (x.[1] = '-', s2l_ascii (sub2 x)), r)
+    (* d<sign><literal>[f32|f64]=<reference spelling> *)
+    let body = sub2 x in
+    let j = (match Stdlib.String.index_opt body '=' with Some j -> j | None -> raise (Bad_case "float")) in
+    let l = Stdlib.String.sub body 0 j and want = Stdlib.String.sub body (j + 1) (Stdlib.String.length body - j - 1) in
+    let n = Stdlib.String.length l in
+    let (lit, sfx) =
+      if n > 3 && Stdlib.String.sub l (n - 3) 3 = "f32" then (Stdlib.String.sub l 0 (n - 3), Some FT32)
+      else if n > 3 && Stdlib.String.sub l (n - 3) 3 = "f64" then (Stdlib.String.sub l 0 (n - 3), Some FT64)
+      else (l, None) in
+    if lit = "" || want = "" then raise (Bad_case "float");
+    (DFloat (x.[1] = '-', s2l_ascii lit, sfx, s2l_ascii want), r)
   | x :: r when Stdlib.String.length x > 1 && x.[0] = '$' -> (DStr (cps_of_tok (sub1 x)), r)
   | _ -> raise (Bad_case "doc")
 
@@ -85,7 +95,7 @@ let run_doc toks =
     let txt = text d in
     let t = tok_of_cps txt in
     let spec_v = value_of d in
-    let m = expand lexical_f64 env fuel (tokens d) in
+    let m = expand lexical_float env fuel (tokens d) in
     let p = match parse_str txt with Ok (v, _) -> Some v | _ -> None in
     let ms = match m with Some v -> value_str v | None -> "NONE" in
     let ps = match p with Some v -> value_str v | None -> "ERR" in
